@@ -502,6 +502,25 @@ pub fn gen_rec(rng: &mut Rng, kind: u8, samples: &[String], cfg: &Config, contig
     }
 }
 
+/// Repeats the records of a call set at later positions until its VCF text exceeds `target` bytes
+/// (inputs longer than a pipe buffer, a BGZF block or any detection prefix).
+pub fn pad_callset(callset: &mut CallSet, target: usize) {
+    if callset.recs.is_empty() {
+        return;
+    }
+    let per_rec = (callset.to_vcf().len() / callset.recs.len()).max(1);
+    let want = (target / per_rec + 1).min(6000);
+    let base = callset.recs.clone();
+    let mut k = 0;
+    while callset.recs.len() < want {
+        let mut r = base[k % base.len()].clone();
+        r.contig = callset.recs.last().map(|x| x.contig).unwrap_or(0);
+        r.pos = callset.recs.last().map(|x| x.pos).unwrap_or(0).saturating_add(1 + (k % 7) as u32);
+        callset.recs.push(r);
+        k += 1;
+    }
+}
+
 pub fn gen_callset(rng: &mut Rng, p: &CallSetParams) -> (CallSet, Config) {
     let samples = if p.big_cohort {
         let n = *rng.pick(&[86usize, 87, 90, 100, 128, 129, 171, 172, 256, 300]);
